@@ -95,12 +95,12 @@ class C09(runner.Check):
     engine_opts = dict(pool=48, max_paths=3000, feas_ms=800, t3_ms=6000, t2_ms=6000, wall_s=1500, confirm_feas=False)
     expected_events = ("div0", "singular", "sqrt-neg")
     bounds_text = ("entry points: all selectors incl. VoronoiFPS (fit, transform, fit_transform, two-step refit histories: other data / with-y then without-y / "
-                   "larger then smaller / repeated call), StandardFlexibleScaler, KernelNormalizer, SparseKernelCenterer, QuickShift (constructor + fit), SparseKDE "
+                   "larger then smaller / repeated call), KernelPCovR.fit on a caller-supplied precomputed kernel with centring (factor family of C05), StandardFlexibleScaler, KernelNormalizer, SparseKernelCenterer, QuickShift (constructor + fit), SparseKDE "
                    "(constructor), periodic / Mahalanobis distances, orthogonalizers (copy=True), prediction rigidities; small symbolic shapes; every path of each call.")
     stubs = ["sklearn validators reproduce the aliasing contract for float64 C-order input (return the same object unless copy=True) - the worst case for purity",
              "CUR family decompositions uninterpreted", "tqdm -> plain iteration"]
     assumptions = ["aliasing model: float64, C-contiguous, writeable caller arrays (other dtypes/layouts are copied by validation and cannot be modified)"]
-    outside = ["DirectionalConvexHull (qhull), SparseKDE.fit beyond the constructor, PCovR/KernelPCovR/Ridge2FoldCV/OrthogonalRegression/reconstruction measures "
+    outside = ["DirectionalConvexHull (qhull), SparseKDE.fit beyond the constructor, PCovR / KernelPCovR (except the precomputed-kernel configuration) / Ridge2FoldCV/OrthogonalRegression/reconstruction measures "
                "(they need decomposition stubs; their purity is not decided here)", "n_jobs > 1", "F-order / read-only buffers (copied by sklearn validation)"]
 
     def configs(self, tier):
@@ -114,9 +114,26 @@ class C09(runner.Check):
                 cf.append({"scenario": "selector", "sel": i, "hist": hist, "_cost": 4})
         for s in ("scaler", "kernel-normalizer", "sparse-centerer", "quickshift", "sparsekde-init", "pairwise", "orthogonalizers", "rigidities"):
             cf.append({"scenario": s, "_cost": 1})
+        # KernelPCovR.fit on a caller-supplied precomputed kernel with centring: run through C05's harness and stubs (factor family), reported as C09
+        cf.append({"scenario": "kpcovr-caller-kernel", "_cost": 8,
+                   "c05": {"mode": "caller-kernel", "n": 4, "m": 2, "p": 1, "k": 1, "reg": "precomputed", "kernel": "precomputed", "center": True, "hv": 2, "family": {"V": "R35"}}})
         return cf
 
+    def _c05(self):
+        from checks.c05 import C05
+
+        if not hasattr(self, "_c05_obj"):
+            self._c05_obj = C05()
+        return self._c05_obj
+
+    def modules_for(self, cfg):
+        if cfg["scenario"] == "kpcovr-caller-kernel":
+            return list(self._c05().modules) + ["skmatter.preprocessing._data"]
+        return self.modules
+
     def patches(self, cfg):
+        if cfg["scenario"] == "kpcovr-caller-kernel":
+            return self._c05().patches(cfg["c05"])
         p = cur_stubs.patches()
         if cfg["scenario"] == "selector" and SELECTORS[cfg["sel"]][0] == "VoronoiFPS" and "full_fraction" not in SELECTORS[cfg["sel"]][5]:
             from checks.c06 import StubClock
@@ -340,6 +357,8 @@ class C09(runner.Check):
         return True
 
     def harness(self, c, cfg, P):
+        if cfg["scenario"] == "kpcovr-caller-kernel":
+            return self._c05().harness(c, cfg["c05"], P)
         cur_stubs.reset()
         self._symbolic = True
         self._pending = []
@@ -380,6 +399,8 @@ class C09(runner.Check):
 
     # ------------------------------------------------------------------ float replay
     def concrete(self, cfg, values):
+        if cfg["scenario"] == "kpcovr-caller-kernel":
+            return self._c05().concrete(cfg["c05"], values)
         self._symbolic = False
         self._pending = []
         W = Watch()
@@ -424,6 +445,11 @@ class C09(runner.Check):
 
     def same_outcome(self, cfg, sym_out, real_out):
         return True
+
+    def fix_values(self, cfg, new, model):
+        if cfg["scenario"] == "kpcovr-caller-kernel":
+            return self._c05().fix_values(cfg["c05"], new, model)
+        return super().fix_values(cfg, new, model)
 
     def signature(self, cfg, clause, values, viol):
         names = sorted(set(v[0] for v in viol))
